@@ -158,6 +158,10 @@ def _rand_key(rng, shape, write, grow_p=0.25, forms=("int", "int", "int", "int",
         else:
             k = int(rng.integers(1, min(3, I) + 1))
             vals = [int(x) for x in rng.choice(I, size=k, replace=False)]
+            if not write and rng.random() < 0.3:
+                # reads may name a position more than once (every occurrence reads it)
+                vals = vals + [vals[int(rng.integers(0, len(vals)))] for _ in range(int(rng.integers(1, 3)))]
+                vals = [vals[j] for j in rng.permutation(len(vals))]
             if write and rng.random() < grow_p:
                 vals[-1] = int(I)
             elif rng.random() < 0.25:
